@@ -252,6 +252,73 @@ def desugar_try(text):
             raise ValueError("desugar_try did not terminate")
 
 
+def desugar_closure_patterns(text, counter):
+    """`|(a, _)| BODY` / `|S { x, y }| BODY`  =>  `|__vx_cpN| { let (a, _) = __vx_cpN; BODY }`  (Verus takes only variables
+    as closure parameters). Only single-parameter closures whose parameter is a tuple or struct pattern without a type
+    annotation are rewritten. Returns (new_text, number_of_rewrites)."""
+    n = 0
+    pos = 0
+    while True:
+        toks = rlex.code_toks(rlex.lex(text))
+        hit = None
+        for i, t in enumerate(toks):
+            if t.start < pos or t.kind != "punct" or t.text != "|":
+                continue
+            # closure head must follow `(`, `,`, `=`, or start (not a binary `|`)
+            if i > 0 and toks[i - 1].text not in ("(", ",", "=", "move", "{", ";"):
+                continue
+            j = i + 1
+            if j >= len(toks):
+                continue
+            # pattern: `( ... )` or `Ident { ... }`
+            if toks[j].text == "(":
+                k = rlex.match_close(toks, j)
+            elif toks[j].kind == "ident" and j + 1 < len(toks) and toks[j + 1].text == "{":
+                k = rlex.match_close(toks, j + 1)
+            else:
+                continue
+            if k + 1 >= len(toks) or toks[k + 1].text != "|":
+                continue
+            pat = text[toks[j].start:toks[k].end]
+            b = k + 2
+            if b >= len(toks):
+                continue
+            if toks[b].text == "{":
+                e = rlex.match_close(toks, b)
+                body = text[toks[b].start + 1:toks[e].start]
+                end = toks[e].end
+            else:
+                depth = 0
+                e = b
+                while e < len(toks):
+                    tx = toks[e].text
+                    if toks[e].kind == "punct" and tx in rlex.OPEN:
+                        depth += 1
+                    elif toks[e].kind == "punct" and tx in rlex.CLOSE:
+                        if depth == 0:
+                            break
+                        depth -= 1
+                    elif toks[e].kind == "punct" and tx in (",", ";") and depth == 0:
+                        break
+                    e += 1
+                if e >= len(toks):
+                    continue
+                body = text[toks[b].start:toks[e].start]
+                end = toks[e].start
+            hit = (toks[i].start, end, pat, body)
+            break
+        if hit is None:
+            return text, n
+        a0, a1, pat, body = hit
+        name = "__vx_cp%d" % (counter + n)
+        rep = "|%s| { let %s = %s; %s }" % (name, pat, name, body.strip())
+        text = text[:a0] + rep + text[a1:]
+        pos = a0 + len(name) + 2
+        n += 1
+        if n > 50:
+            return text, n
+
+
 class Expander:
     def __init__(self, unit_name, tmpl_path, vac=False):
         self.unit = unit_name
@@ -267,6 +334,7 @@ class Expander:
         self.external_fns = []
         self.vis_narrowed = 0
         self.panic_macros = 0
+        self.closure_pats = 0
         self.pub_fields = 0
         self.after_item = []
 
@@ -869,6 +937,16 @@ class Expander:
                 # missing hint can only make a proof fail, which would be reported as a violation; so refuse instead)
                 raise LostAnchor("%s: proof hint anchor /%s/ #%d not found in %s" % (rel, pat, nth, fnid))
             self.rewrites.append("%s: proof hint (asserts only) spliced before match #%d of /%s/ in %s" % (rel, nth, pat, fnid))
+        # closures whose parameter is a pattern (after all site-specific rewrites, which may already have handled them)
+        for sg in self.out.segs[body_seg0:]:
+            if sg.origin[0] in ("repo", "rewrite") and "|" in sg.text and re.search(r"\|\s*(\(|[A-Z]\w*\s*\{)", sg.text):
+                try:
+                    sg.text, ncp = desugar_closure_patterns(sg.text, self.closure_pats)
+                except Exception:
+                    ncp = 0
+                if ncp:
+                    self.closure_pats += ncp
+                    self.rewrites.append("%s: %d closure(s) with a pattern parameter in %s rewritten `|PAT| BODY` => `|p| { let PAT = p; BODY }` (Verus takes only variables as closure parameters)" % (rel, ncp, fnid))
         for a, b in spec.get("renames", []):
             # alpha-renaming of a local identifier (all occurrences that are not field/method/path segments)
             n = 0
